@@ -64,7 +64,7 @@ def eps2_of(case):
     return qfr(e * e)
 
 
-def rankdef_term(case, observe, tables, sel):
+def rankdef_term(case, observe, tables, sel, mode=3):
     """Coq term for a state whose basis matrix is exactly rank deficient; sel = independent columns"""
     if observe["resid"] is None or observe["coef"] is None or tables["phi"] is None:
         return None
@@ -75,8 +75,8 @@ def rankdef_term(case, observe, tables, sel):
     cu2, floor2, k2max = params_for(case["scalar"])
     if not all_finite_mat(observe["coef"]) or not all(is_finite_hex(h) for h in observe["resid"]):
         return "8%N"
-    return "num_rankdef %s %s %s %s %s %s %s %s %s %s %s %s" % (
-        cu2, floor2, k2max, eps2_of(case), cnatm(m["N"]), cnatm(m["M"]), "None" if w is None else "(Some %s)" % vec(w),
+    return "num_rankdef %s %s %s %s %s %s %s %s %s %s %s %s %s" % (
+        cnatm(mode), cu2, floor2, k2max, eps2_of(case), cnatm(m["N"]), cnatm(m["M"]), "None" if w is None else "(Some %s)" % vec(w),
         mat(tables["phi"]), mat_cols(obs_of(case)), sseq([cnatm(j) for j in sel]), mat(observe["coef"]), vec(observe["resid"]))
 
 
